@@ -66,7 +66,7 @@ pub fn run(p: &Params, rep: &mut Report) {
                 // class: which selector kinds / shapes were in the store
                 let dataless = h.model.anns.values().any(|a| a.data.is_empty());
                 let gaps = h.model.anns.len() != h.model.next_ann || h.model.sets.values().any(|s| s.data.len() != s.next_data);
-                if gaps && (msg.contains("IntIdError") || msg.contains("IdNotFoundError") || msg.contains("HandleError") || msg.contains("IncompleteError")) {
+                if gaps && (msg.contains("IntIdError") || msg.contains("IdNotFoundError") || msg.contains("HandleError") || msg.contains("IncompleteError") || msg.contains("BuildError")) {
                     // root cause: id-less items are referenced by temporary id ('!A3'), but the CSV reader neither strips
                     // temporary ids nor reproduces the gaps left by removals, so the reference dangles or hits another item
                     rep.violation(
